@@ -523,6 +523,28 @@ func checkCleanPerl(p *Prog, ru *Rule, cp *ssa.Function) {
 				okk = true
 			}
 		}
+		if !okk {
+			/* Written out: "" for no lines, else Join(lines, "\n") + "\n". */
+			joins, other := 0, false
+			for _, x := range valueRoots(v, nil) {
+				switch {
+				case "const" == x.Kind:
+					if cs, isS := constString(x.V); !isS || ("" != cs && "\n" != cs) {
+						other = true
+					}
+				case "call" == x.Kind && "strings.Join" == x.Callee:
+					jc := x.V.(*ssa.Call)
+					if sep, isS := constString(jc.Common().Args[1]); resolveCell(jc.Common().Args[0]) == ssa.Value(split) && isS && "\n" == sep {
+						joins++
+					} else {
+						other = true
+					}
+				default:
+					other = true
+				}
+			}
+			okk = 1 == joins && !other
+		}
 		if okk {
 			ru.OK(c+":program-text", posOf(ret), "perl receives the join of the (blanked) line slice")
 		} else {
@@ -831,6 +853,9 @@ func commentPrefixLoop(cp *ssa.Function, lines ssa.Value, ia *ssa.IndexAddr, st 
 // boundIsCommentRun: bound is slices.IndexFunc(lines, not-a-comment), or
 // len(lines) where that found nothing.
 func boundIsCommentRun(lines, bound ssa.Value) bool {
+	if isCommentCount(lines, bound) {
+		return true
+	}
 	nIdx := 0
 	for _, l := range phiLeaves(bound) {
 		switch x := l.V.(type) {
@@ -966,4 +991,87 @@ func runeMapPairs(f *ssa.Function) (pairs [][2]int64, why string) {
 		return nil, "no character is mapped"
 	}
 	return pairs, ""
+}
+
+// isCommentCount: bound counts the leading comment lines: it starts at 0 and
+// is stepped by one only right after strings.HasPrefix(lines[bound], "#") held,
+// so every line below it starts with '#'.
+func isCommentCount(lines, bound ssa.Value) bool {
+	ph, ok := bound.(*ssa.Phi)
+	if !ok {
+		return false
+	}
+	var inc *ssa.BinOp
+	zero := false
+	for _, e := range ph.Edges {
+		if k, isC := constInt(e); isC {
+			if 0 != k {
+				return false
+			}
+			zero = true
+			continue
+		}
+		b, isB := e.(*ssa.BinOp)
+		if !isB || token.ADD != b.Op || b.X != ssa.Value(ph) {
+			return false
+		}
+		if one, isC := constInt(b.Y); !isC || 1 != one {
+			return false
+		}
+		if nil != inc && inc != b {
+			return false
+		}
+		inc = b
+	}
+	if !zero || nil == inc {
+		return false
+	}
+	/* The step's block is entered only over the "starts with #" edge of a
+	test of lines[bound]. */
+	blk := inc.Block()
+	if 1 != len(blk.Preds) {
+		return false
+	}
+	ifi := blockIf(blk.Preds[0])
+	if nil == ifi {
+		return false
+	}
+	dc := decodeCond(ifi.Cond)
+	hc, isCall := dc.X.(*ssa.Call)
+	if !isCall || nil != dc.Y || "strings.HasPrefix" != calleeName(hc.Common()) {
+		return false
+	}
+	if pre, isC := constString(hc.Common().Args[1]); !isC || "#" != pre {
+		return false
+	}
+	trueSucc := 1
+	if dc.Eq {
+		trueSucc = 0
+	}
+	if blk.Preds[0].Succs[trueSucc] != blk || blk.Preds[0].Succs[1-trueSucc] == blk {
+		return false
+	}
+	ld, isLd := hc.Common().Args[0].(*ssa.UnOp)
+	if !isLd || token.MUL != ld.Op {
+		return false
+	}
+	ia, isIA := ld.X.(*ssa.IndexAddr)
+	if !isIA || ia.X != lines || ia.Index != ssa.Value(ph) {
+		return false
+	}
+	/* No line is rewritten while counting. */
+	h := ph.Block()
+	okNoStore := true
+	eachInstr(ph.Parent(), func(i ssa.Instruction) {
+		st, isSt := i.(*ssa.Store)
+		if !isSt {
+			return
+		}
+		if sia, isIA := st.Addr.(*ssa.IndexAddr); isIA && sia.X == lines {
+			if h.Dominates(st.Block()) && canReach(locOf(st), ph.Block().Instrs[len(ph.Block().Instrs)-1]) && st.Block() == blk {
+				okNoStore = false
+			}
+		}
+	})
+	return okNoStore
 }
